@@ -67,7 +67,17 @@ type GhostVar struct {
 	Type string
 }
 
+// Pred is a named predicate: //@ pred name(a T, b U) = expr
+type Pred struct {
+	Name   string
+	Params [][2]string
+	Body   ast.Expr
+	Src    string
+	Pkg    string
+}
+
 type ContractFile struct {
+	Preds     []*Pred
 	Pkg       string
 	Contracts map[string]*Contract
 	Ghosts    []GhostVar
@@ -132,6 +142,30 @@ func parseContractFile(path, pkg string) (*ContractFile, error) {
 			continue
 		}
 		word, rest := splitWord(body)
+		if word == "pred" {
+			eqi := strings.Index(rest, "=")
+			lp, rp := strings.Index(rest, "("), strings.Index(rest, ")")
+			if eqi < 0 || lp < 0 || rp < lp || rp > eqi {
+				return nil, fail(fmt.Errorf("pred name(params) = expr"))
+			}
+			p := &Pred{Name: strings.TrimSpace(rest[:lp]), Src: strings.TrimSpace(rest[eqi+1:]), Pkg: pkg}
+			for _, ps := range strings.Split(rest[lp+1:rp], ",") {
+				ps = strings.TrimSpace(ps)
+				if ps == "" {
+					continue
+				}
+				n, t := splitWord(ps)
+				p.Params = append(p.Params, [2]string{n, t})
+			}
+			e, err := parseExprSrc(p.Src)
+			if err != nil {
+				return nil, fail(err)
+			}
+			p.Body = e
+			cf.Preds = append(cf.Preds, p)
+			cur = nil
+			continue
+		}
 		if word == "lemma" && !strings.Contains(rest, ":") {
 			name := "lemma:" + strings.TrimSpace(rest)
 			cur = &Contract{Func: name, Pkg: pkg, File: path, Line: lineNo, IsLemma: true, LoopInv: map[int][]ast.Expr{}, LoopInvSrc: map[int][]string{}, LoopGhost: map[int][]string{}, ChanInv: map[string]ast.Expr{}}
